@@ -177,6 +177,9 @@ def run(ctx):
                         if minlen > 1:
                             silent_discards = True     # shorter candidates are consumed without being yielded
                         got = []
+                        sb = monitors.step_bound([LocalConcurrences.kbest_matches.__code__, LocalConcurrences.best_path.__code__],
+                                                 3000 * (r + 5) * (c + 5))
+                        sb.__enter__()
                         for m in lc.kbest_matches(k=k, minlen=minlen, buffer=0, restart=restart):
                             path = [(int(x), int(y)) for x, y in m.path]
                             ctx.count("lc_paths_checked")
@@ -199,6 +202,7 @@ def run(ctx):
                                 break
                             consumed.update(path)
                             got.append(path)
+                        sb.__exit__(None, None, None)
                         if not okall:
                             break
                         session.append((k, minlen, got))
@@ -215,4 +219,11 @@ def run(ctx):
                     if okall and len(ctx.samples) < 2 and session and session[0][2]:
                         ctx.sample(dict(fn=fn, s1=s1, s2=s2, settings=kw, ops=[list(o) for o in ops], first_paths=session[0][2]))
                 except Exception as e:
-                    ctx.violation("exception", fn=fn, error=repr(e)[:300], **wit)
+                    try:
+                        sb.__exit__(None, None, None)
+                    except Exception:
+                        pass
+                    if isinstance(e, monitors.StepLimit):
+                        ctx.violation("lc-match-invalid", fn=fn, reason="no progress: " + str(e), **wit)
+                    else:
+                        ctx.violation("exception", fn=fn, error=repr(e)[:300], **wit)
